@@ -524,6 +524,18 @@ pub fn run(s: &mut Src, ctx: &mut Ctx) -> Verdict {
     }
     let mut facts: Vec<MFact> = Vec::new();
     let mut last_id = 0u64;
+    // an engine that is not new (every third history by length; a pure function of the case): 70 facts of another type
+    // were inserted and retracted before, so handle ids are past 64 and retractions are on record
+    if ctx.exh == 0 && c.ops.len() % 3 == 0 {
+        for w in 0..70 {
+            let mut t = TypedFacts::new();
+            t.set("w", FactValue::Integer(w));
+            let h = engine.insert("Warm".to_string(), t);
+            let _ = engine.retract(h);
+            last_id = last_id.max(h.id());
+        }
+        ctx.label("engine-not-new(warm-up)");
+    }
     let all_noop = c.rules.iter().all(|r| matches!(r.act, ActKind::None | ActKind::FocusRoundTrip) && r.ast.no_loop);
     let mut first_fire_done = false;
     let mut armed: Vec<bool> = vec![true; c.rules.len()];
